@@ -1,6 +1,67 @@
-From Verif Require Import Lib.Base NodeDB.Spec NodeDB.Badger NodeDB.BadgerProofs.
+From Verif Require Import Lib.Base NodeDB.Spec NodeDB.Badger NodeDB.BadgerProofs NodeDB.Crash NodeDB.CrashProofs.
 
-Theorem crash_safe_commit_partial :
-  forall d ps ver, inv d -> inv (mkb (b_meta d) (b_aux d) (write_all ps ver true (b_store d))).
-Proof. exact crash_after_commit_flush. Qed.
-Print Assumptions crash_safe_commit_partial.
+Theorem crash_hyps_hold_after_every_history :
+  forall h, ok_run bdb0 h = true -> inv (c_b (c_run cdb0 h)) /\ rk_inv (c_run cdb0 h).
+Proof. exact crash_hyps_after_history. Qed.
+Print Assumptions crash_hyps_hold_after_every_history.
+
+Theorem step_lists_are_the_operations :
+  forall c o, rk_inv c ->
+    fst (run_all c o) = fst (b_step (c_b c) o) /\ c_b (snd (run_all c o)) = snd (b_step (c_b c) o).
+Proof. exact run_all_b. Qed.
+Print Assumptions step_lists_are_the_operations.
+
+Theorem crash_safe_commit :
+  forall c ver typ rid old ws puts removed reach inl0 k,
+  let o := OCommit ver typ rid old ws puts removed reach inl0 in
+  inv (c_b c) -> (k < length (snd (plan c o)))%nat ->
+  let c1 := reopen (run_until k c o) in
+  inv (c_b c1) /\ b_meta (c_b c1) = b_meta (c_b c) /\ b_aux (c_b c1) = b_aux (c_b c) /\
+  (forall r t, visible r t (c_rk c) = true -> visible r t (c_rk c1) = true) /\
+  fst (retry c1 o) = fst (run_all c o) /\ cequiv (snd (retry c1 o)) (snd (run_all c o)).
+Proof. exact crash_safe_commit_l. Qed.
+Print Assumptions crash_safe_commit.
+
+Theorem crash_safe_finalize :
+  forall c ver rids k,
+  let o := OFinalize ver rids in
+  inv (c_b c) -> (k < length (snd (plan c o)))%nat ->
+  let c1 := reopen (run_until k c o) in
+  b_meta (c_b c1) = b_meta (c_b c) /\ b_aux (c_b c1) = b_aux (c_b c) /\ c_rk c1 = c_rk c /\
+  (forall v r, last_geb (b_meta (c_b c)) v = true -> d_earliest (b_meta (c_b c)) <= v ->
+     has_rid r (roots_at (b_meta (c_b c)) v) = true ->
+     forall n, In n (a_reach (aux_get v r (b_aux (c_b c)))) -> visible n v (b_store (c_b c1)) = true) /\
+  fst (retry c1 o) = fst (run_all c o) /\ cequiv (snd (retry c1 o)) (snd (run_all c o)).
+Proof. exact crash_safe_finalize_l. Qed.
+Print Assumptions crash_safe_finalize.
+
+Theorem crash_safe_prune_refuted :
+  let c := c_run cdb0 h_prune_crash in
+  fst (run_all c (OPrune 1)) = EOk /\
+  let c1 := reopen (run_until 1 c (OPrune 1)) in
+  fst (retry c1 (OPrune 1)) = ERootNotFound /\ snd (retry c1 (OPrune 1)) = c1 /\
+  d_earliest (b_meta (c_b c1)) = 1 /\ inv (c_b c) /\ prune_safe (c_b c) 1 = true.
+Proof. exact crash_safe_prune_refuted_l. Qed.
+Print Assumptions crash_safe_prune_refuted.
+
+Theorem crash_safe_prune :
+  forall c ver k,
+  let o := OPrune ver in
+  inv (c_b c) -> rk_inv c -> prune_safe (c_b c) ver = true ->
+  (k < length (snd (plan_alt c o)))%nat ->
+  let c1 := reopen (run_until_alt k c o) in
+  b_meta (c_b c1) = b_meta (c_b c) /\ b_aux (c_b c1) = b_aux (c_b c) /\
+  (forall v r, ver < v -> has_rid r (roots_at (b_meta (c_b c)) v) = true ->
+     visible r v (c_rk c1) = true /\
+     forall n, In n (a_reach (aux_get v r (b_aux (c_b c)))) -> visible n v (b_store (c_b c1)) = true) /\
+  fst (run_all_alt c1 o) = EOk /\ snd (run_all_alt c1 o) = snd (run_all_alt c o).
+Proof. exact crash_safe_prune_alt_l. Qed.
+Print Assumptions crash_safe_prune.
+
+Theorem crash_safe_prune_repair_on_witness :
+  let c := c_run cdb0 h_prune_crash in
+  let c1 := reopen (run_until_alt 1 c (OPrune 1)) in
+  fst (run_all_alt c1 (OPrune 1)) = EOk /\ snd (run_all_alt c1 (OPrune 1)) = snd (run_all_alt c (OPrune 1)) /\
+  snd (run_all_alt c (OPrune 1)) = snd (run_all c (OPrune 1)).
+Proof. exact crash_prune_alt_witness. Qed.
+Print Assumptions crash_safe_prune_repair_on_witness.
